@@ -31,3 +31,54 @@
       (and ((_ is VObj) a) ((_ is VObj) b) (= (vobjnil a) (vobjnil b))
            (forall ((k Str)) (! (and (= (select (vdom a) k) (select (vdom b) k))
                                      (=> (select (vdom a) k) (specDeepEq (select (vmap a) k) (select (vmap b) k)))) :pattern ((select (vmap a) k)))))))
+
+;; spec nodeRank (n Node) -> Int
+; height of the (finite) AST: children rank strictly below their parent. Declared, not
+; defined; the rank axiom below is an assumption (Go values of type ASTNode are finite trees).
+(declare-fun nodeRank (Node) Int)
+(assert (forall ((n Node)) (! (<= 0 (nodeRank n)) :pattern ((nodeRank n)))))
+(assert (forall ((n Node) (i Int)) (! (=> (and (<= 0 i) (< i (nkids n))) (< (nodeRank (select (kids n) i)) (nodeRank n))) :pattern ((nodeRank (select (kids n) i))))))
+
+;; spec wfNode (n Node) -> Bool
+; shapes the parser can produce for an expression that is not an expression reference
+; (payload types and child counts that Execute relies on); wfArg additionally admits &expr.
+(define-funs-rec ((wfNode ((n Node)) Bool) (wfArg ((n Node)) Bool)) (
+  (and ((_ is mkNode) n) (<= 0 (nkids n))
+   (or (and (= (ntype n) {{ASTComparator}}) (= (nkids n) 2) ((_ is VTok) (nval n)))
+       (= (ntype n) {{ASTCurrentNode}})
+       (= (ntype n) {{ASTIdentity}})
+       (and (= (ntype n) {{ASTFunctionExpression}}) ((_ is VStr) (nval n)))
+       (and (= (ntype n) {{ASTField}}) ((_ is VStr) (nval n)))
+       (and (= (ntype n) {{ASTFilterProjection}}) (= (nkids n) 3))
+       (and (= (ntype n) {{ASTFlatten}}) (= (nkids n) 1))
+       (and (= (ntype n) {{ASTIndex}}) ((_ is VInt) (nval n)))
+       (and (= (ntype n) {{ASTIndexExpression}}) (= (nkids n) 2))
+       (and (= (ntype n) {{ASTKeyValPair}}) (= (nkids n) 1) ((_ is VStr) (nval n)))
+       (and (= (ntype n) {{ASTLiteral}}) (specJSONVal (nval n)))
+       (and (= (ntype n) {{ASTMultiSelectHash}})
+            (forall ((i Int)) (! (=> (and (<= 0 i) (< i (nkids n))) (= (ntype (select (kids n) i)) {{ASTKeyValPair}})) :pattern ((select (kids n) i)))))
+       (= (ntype n) {{ASTMultiSelectList}})
+       (and (= (ntype n) {{ASTOrExpression}}) (= (nkids n) 2))
+       (and (= (ntype n) {{ASTAndExpression}}) (= (nkids n) 2))
+       (and (= (ntype n) {{ASTNotExpression}}) (= (nkids n) 1))
+       (= (ntype n) {{ASTPipe}})
+       (and (= (ntype n) {{ASTProjection}}) (= (nkids n) 2))
+       (and (= (ntype n) {{ASTSubexpression}}) (= (nkids n) 2))
+       (and (= (ntype n) {{ASTSlice}}) ((_ is VIntPtrs) (nval n)) (= (vpn (nval n)) 3))
+       (and (= (ntype n) {{ASTValueProjection}}) (= (nkids n) 2)))
+   (forall ((i Int)) (! (=> (and (<= 0 i) (< i (nkids n)))
+        (ite (= (ntype n) {{ASTFunctionExpression}}) (wfArg (select (kids n) i)) (wfNode (select (kids n) i)))) :pattern ((select (kids n) i)))))
+  (ite (and ((_ is mkNode) n) (= (ntype n) {{ASTExpRef}})) (and (= (nkids n) 1) (wfNode (select (kids n) 0))) (wfNode n))
+))
+
+;; spec wfArg (n Node) -> Bool @in wfNode
+
+;; spec specResultOK (n Node) (v Val) -> Bool
+; what Execute may return for a well-formed node: JSON data, except that an expression
+; reference node (only legal as a function argument) yields the reference to its child
+(define-fun specResultOK ((n Node) (v Val)) Bool
+  (ite (= (ntype n) {{ASTExpRef}}) (and ((_ is VExpRef) v) (= (vref v) (select (kids n) 0))) (specJSONVal v)))
+
+;; spec specArgOK (v Val) -> Bool
+; a resolved function argument: JSON data or a reference to a well-formed expression
+(define-fun specArgOK ((v Val)) Bool (ite ((_ is VExpRef) v) (wfNode (vref v)) (specJSONVal v)))
